@@ -63,7 +63,7 @@ var c19Anchored = []string{"chain/consensus", "store", "chain/deputynode"}
 // packages loaded as roots (their imports inside the module follow)
 var c19Roots = []string{"chain/consensus", "store", "chain/deputynode", "chain", "chain/account", "chain/transaction", "chain/miner", "network", "main/node"}
 
-type c19Mask uint32
+type c19Mask uint64
 
 type c19Access struct {
 	v      int
@@ -225,14 +225,6 @@ func isSyncMutexType(e ast.Expr) bool {
 func (s *c19Scan) index() error {
 	s.varObj = map[types.Object]int{}
 	s.lockOf = map[types.Object]string{}
-	relevant := map[string]bool{}
-	for _, v := range c19Vars {
-		if v.Lock != "atomic" && !relevant[v.Lock] {
-			relevant[v.Lock] = true
-			s.locks = append(s.locks, v.Lock)
-		}
-	}
-	sort.Strings(s.locks)
 	found := make([]bool, len(c19Vars))
 	for _, p := range s.pkgs {
 		if p.pkg == nil {
@@ -251,6 +243,11 @@ func (s *c19Scan) index() error {
 							continue
 						}
 						for _, id := range sp.Names {
+							if sp.Type != nil && isSyncMutexType(sp.Type) {
+								if o := p.info.Defs[id]; o != nil {
+									s.lockOf[o] = p.pkg.Name() + "." + id.Name // a package-level mutex
+								}
+							}
 							for i, v := range c19Vars {
 								if v.Type == "" && v.Pkg == p.rel && v.Field == id.Name {
 									if o := p.info.Defs[id]; o != nil {
@@ -297,15 +294,20 @@ func (s *c19Scan) index() error {
 			return fmt.Errorf("shared variable %s not found in %s", c19Vars[i].Name, c19Vars[i].Pkg)
 		}
 	}
-	for _, l := range s.locks {
-		ok := false
-		for _, n := range s.lockOf {
-			if n == l {
-				ok = true
-			}
+	seenLock := map[string]bool{}
+	for _, n := range s.lockOf {
+		if !seenLock[n] {
+			seenLock[n] = true
+			s.locks = append(s.locks, n)
 		}
-		if !ok {
-			return fmt.Errorf("lock %s not found (no sync.Mutex/RWMutex field of that name)", l)
+	}
+	sort.Strings(s.locks)
+	if len(s.locks) > 64 {
+		return fmt.Errorf("more than 64 mutexes in the module (%d)", len(s.locks))
+	}
+	for _, v := range c19Vars {
+		if v.Lock != "atomic" && !seenLock[v.Lock] {
+			return fmt.Errorf("lock %s not found (no sync.Mutex/RWMutex field of that name)", v.Lock)
 		}
 	}
 	sort.Slice(s.named, func(i, j int) bool {
@@ -916,35 +918,30 @@ func (s *c19Scan) entries() []c19Entry {
 	return out
 }
 
-func (s *c19Scan) rows() []c19Row {
+// rows builds the table.  A variable's GUARD is a lock held at every access from a real entry point
+// (the intersection of the lock sets over all those accesses; "atomic" when every access goes through
+// atomic.Value Load/Store; "none" when there is no such lock).  lockHeld of a row = the access holds the
+// variable's nominal lock (c19Vars) or its guard.
+func (s *c19Scan) rows() ([]c19Row, map[string]string) {
 	type k struct {
 		v     int
 		fn    string
 		write bool
 		entry string
 	}
-	agg := map[k]bool{}
+	type acc struct {
+		key    k
+		mask   c19Mask
+		atomic bool
+	}
+	var all []acc
 	covered := map[*c19Fn]bool{}
-	ok := func(a c19Access, h c19Mask) bool {
-		v := c19Vars[a.v]
-		if v.Lock == "atomic" {
-			return a.atomic
-		}
-		return (h|a.held)&s.lockBit(v.Lock) != 0
-	}
-	put := func(key k, held bool) {
-		if old, seen := agg[key]; seen {
-			agg[key] = old && held
-		} else {
-			agg[key] = held
-		}
-	}
 	for _, e := range s.entries() {
 		held := s.reach(e.fn)
 		for fn, h := range held {
 			for _, a := range fn.accesses {
 				covered[fn] = true
-				put(k{a.v, fn.name, a.write, e.name}, ok(a, h))
+				all = append(all, acc{k{a.v, fn.name, a.write, e.name}, h | a.held, a.atomic})
 			}
 		}
 	}
@@ -954,7 +951,53 @@ func (s *c19Scan) rows() []c19Row {
 			continue
 		}
 		for _, a := range fn.accesses {
-			put(k{a.v, fn.name, a.write, "-"}, ok(a, 0))
+			all = append(all, acc{k{a.v, fn.name, a.write, "-"}, a.held, a.atomic})
+		}
+	}
+	common := make([]c19Mask, len(c19Vars))
+	allAtomic := make([]bool, len(c19Vars))
+	for i := range common {
+		common[i] = ^c19Mask(0)
+		allAtomic[i] = true
+	}
+	for _, a := range all {
+		if a.key.entry == "-" {
+			continue
+		}
+		common[a.key.v] &= a.mask
+		allAtomic[a.key.v] = allAtomic[a.key.v] && a.atomic
+	}
+	guards := map[string]string{}
+	for i, v := range c19Vars {
+		var names []string
+		for b, l := range s.locks {
+			if common[i] != ^c19Mask(0) && common[i]&(1<<uint(b)) != 0 {
+				names = append(names, l)
+			}
+		}
+		switch {
+		case v.Lock == "atomic" && allAtomic[i]:
+			guards[v.Name] = "atomic"
+		case len(names) > 0:
+			guards[v.Name] = strings.Join(names, "+")
+		default:
+			guards[v.Name] = "none"
+			common[i] = 0
+		}
+	}
+	agg := map[k]bool{}
+	for _, a := range all {
+		v := c19Vars[a.key.v]
+		var ok bool
+		if v.Lock == "atomic" {
+			ok = a.atomic || a.mask&common[a.key.v] != 0
+		} else {
+			ok = a.mask&(s.lockBit(v.Lock)|common[a.key.v]) != 0
+		}
+		if old, seen := agg[a.key]; seen {
+			agg[a.key] = old && ok
+		} else {
+			agg[a.key] = ok
 		}
 	}
 	var out []c19Row
@@ -966,20 +1009,21 @@ func (s *c19Scan) rows() []c19Row {
 		out = append(out, c19Row{c19Vars[key.v].Name, key.fn, rw, held, key.entry})
 	}
 	sort.Slice(out, func(i, j int) bool { return out[i].String() < out[j].String() })
-	return out
+	return out, guards
 }
 
-func c19ScanRepo(repo string) ([]c19Row, *c19Scan, error) {
+func c19ScanRepo(repo string) ([]c19Row, map[string]string, error) {
 	s := &c19Scan{repo: repo, fset: token.NewFileSet(), pkgs: map[string]*c19Pkg{}, fake: map[string]*types.Package{}}
 	for _, r := range c19Roots {
 		if _, err := s.load(c19Mod + "/" + r); err != nil {
-			return nil, s, fmt.Errorf("load %s: %v", r, err)
+			return nil, nil, fmt.Errorf("load %s: %v", r, err)
 		}
 	}
 	if err := s.index(); err != nil {
-		return nil, s, err
+		return nil, nil, err
 	}
 	s.collect()
 	s.link()
-	return s.rows(), s, nil
+	rows, guards := s.rows()
+	return rows, guards, nil
 }
